@@ -7,7 +7,10 @@ ended, whether a finished episode was stepped, and (through per-step digests of
 the live networks and optimizers) when the first update happened.  The expected
 numbers are derived from the episode script and the documented meaning of
 ``total_timesteps`` / ``global_step`` / ``total_episodes`` / ``learning_starts``,
-never from the implementation.  See DESIGN.md §5 C11, §6 (D8, D12, D14, D15),
+never from the implementation.  Histories are run without and with a logger;
+a logger is one object for the whole history (first call, continuation, third
+call) -- the way the multi-task schedulers hand theirs to every backbone call --
+so a routine must not derive its episode limit from the logger's episode count.  See DESIGN.md §5 C11, §6 (D8, D12, D14, D15),
 §11 (DUCB reference).
 
 Status of the suspected defects: D8 (generate_rollout), D12 (returned counters,
@@ -35,11 +38,18 @@ RULE = (
     "Training histories: case = (routine, episode script of [length, term|trunc] pairs, starting "
     "global_step, remaining budget incl. 0 and 1, total_episodes, learning_starts/batch_size and "
     "cadence parameters, optional continuation call that starts from the returned counter with a "
-    "larger budget). The budget is constructed from the script so that it ends mid-episode, exactly "
+    "larger budget; in ~60% of the histories a logger (MemoryLogger or the recording logger of "
+    "vlib.instruments, in half of these already used for 1-2 episodes) is passed and REUSED by a "
+    "continuation call (and a third call in 1/3 of them) with total_episodes in {1,2,3} and a budget "
+    "that ends behind / exactly at / short of the end of the requested episodes). The budget is "
+    "constructed from the script so that it ends mid-episode, exactly "
     "at an episode end, or behind the episode limit. Non-trivial = the budget ends mid-episode, or "
     "the episode limit stops the call, or a continuation call is made (batch collectors: budget not "
     "a multiple of the collection size or exactly on a collection boundary; schedulers: >= 2 backbone "
-    "calls and the budget ends mid-episode or >= 2 tasks were trained). Selectors: case = (number of "
+    "calls and the budget ends mid-episode or >= 2 tasks were trained; real backbones: TD3/SAC/DDPG/"
+    "Nature-DQN/DDQN, the scheduler is given a logger in ~60% of the cases and every backbone call is "
+    "checked against the env log: it stops exactly at its episode limit or when its budget is used up). "
+    "Selectors: case = (number of "
     "arms, gamma, zeta, bound, per-arm reward means, noise seed, length, optional protocol misuse); "
     "non-trivial = at least one selection after the initial rounds (DUCB) / one full cycle "
     "(round robin) or a misuse op. Distinct = distinct (routine, script, start, budget, limits, "
@@ -63,6 +73,9 @@ ASSUMPTIONS = [
     "one environment and batch_size 1",
     "train_uts with real backbones: an overrun of at most one step per backbone call stopped by its "
     "episode limit gets its own key (signature of the repaired counter defect D12)",
+    "continuation calls of logger histories: total_timesteps = returned counter + (steps of the next "
+    "total_episodes scripted episodes of the environment, read from the script at run time) + / - the drawn "
+    "slack; loggers only count episodes and store statistics (no checkpoints are written)",
 ]
 
 QUICK = gen.tier() == "quick"
@@ -178,17 +191,60 @@ def history_cases(draw, routine):
     if has_start and draw(st.integers(0, 9)) < 6:
         cont = {"extra": draw(st.integers(1, 12)),
                 "eps": draw(st.sampled_from([None, 1, 2])) if has_eps else None}
-    return {"routine": routine, "script": script, "script_seed": draw(st.integers(0, 999)),
+    case = {"routine": routine, "script": script, "script_seed": draw(st.integers(0, 999)),
             "start": start, "remaining": rem, "eps": plan["eps"], "cfg": cfg, "cont": cont,
             "seed": draw(st.integers(0, 999))}
+    # A logger is passed in a share of the histories and REUSED by every call of the history (continued
+    # run: what the multi-task schedulers do with their backbone).  Such histories always continue, with an
+    # episode limit of 1-3 whose budget is constructed from the script at run time (see _continuation_total).
+    case["logger"] = draw(st.sampled_from(["memory", None, "snapshot", None, "memory"]))
+    if case["logger"]:
+        # episodes the logger has already seen before the first call (a logger shared with an earlier run)
+        case["logger_pre"] = draw(st.sampled_from([0, 2, 0, 1]))
+        if has_start:
+            case["cont"] = draw(logger_continuation(has_eps))
+            if draw(st.integers(0, 2)) == 0:
+                case["cont2"] = draw(logger_continuation(has_eps))
+    return case
+
+
+@st.composite
+def logger_continuation(draw, has_eps):
+    if not has_eps:
+        return {"extra": draw(st.integers(1, 12)), "eps": None}
+    # mode: "limit" = budget reaches `extra` steps behind the end of the eps-th episode of the call,
+    # "end_limit" = exactly to that episode end, "short" = `extra` steps short of it (>= 1 step)
+    return {"eps": draw(st.sampled_from([2, 3, 1, 2])),
+            "mode": draw(st.sampled_from(["limit", "end_limit", "short", "limit"])),
+            "extra": draw(st.integers(1, 6))}
+
+
+def _continuation_total(script, first_episode, nxt, total_prev, cont):
+    """total_timesteps of a continuation call that starts from step count ``nxt`` with the scripted
+    episode ``first_episode``."""
+    mode = cont.get("mode")
+    if mode is None:
+        return max(total_prev, nxt) + cont["extra"]
+    need = R.steps_for_episodes(script, first_episode, cont["eps"])
+    rem = {"limit": need + cont["extra"], "end_limit": need}.get(mode, max(1, need - cont["extra"]))
+    return nxt + rem
 
 
 def simplify_history(case):
     import copy
 
     c = case
+    if c.get("cont2"):
+        d = copy.deepcopy(c); d.pop("cont2"); yield d
     if c.get("cont"):
-        d = copy.deepcopy(c); d["cont"] = None; yield d
+        d = copy.deepcopy(c); d["cont"] = None; d.pop("cont2", None); yield d
+    if c.get("logger"):
+        d = copy.deepcopy(c); d["logger"] = None; yield d
+        if c.get("logger_pre"):
+            d = copy.deepcopy(c); d["logger_pre"] = 0; yield d
+    for key in ("cont", "cont2"):
+        if c.get(key) and c[key].get("mode") and c[key]["eps"] > 1:
+            d = copy.deepcopy(c); d[key]["eps"] -= 1; yield d
     if c["start"]:
         d = copy.deepcopy(c)
         d["cfg"]["learning_starts"] = max(0, c["cfg"]["learning_starts"] - c["start"])
@@ -287,20 +343,26 @@ def run_history(case):
     script = [list(x) for x in case["script"]]
     start, rem, eps = case["start"], case["remaining"], case["eps"]
     total = start + rem
-    cont = case.get("cont")
-    cap = 4 * (rem + (cont["extra"] if cont else 0)) + 80
+    conts = [c for c in (case.get("cont"), case.get("cont2") if case.get("cont") else None) if c]
+    worst = rem + sum(c["extra"] + (3 * 12 if c.get("mode") else 0) for c in conts)
+    cap = 4 * worst + 80
     tracker = R.Tracker()
     log = R.EnvLog()
     env = R.CappedEnv(script, seed=case["script_seed"], action_space=ad.space(), log=log,
                       on_step=tracker.on_step, step_cap=cap)
     ad.setup(env)
+    ad.logger = R.make_logger(case.get("logger"), case.get("logger_pre", 0))
     tracker.track(*ad.tracked)
     warm = case["cfg"]["learning_starts"] if ad.warmup == "learning_starts" else None
     labels = set()
+    if ad.logger is not None:
+        labels.add("logger:" + case["logger"])
+        if case.get("logger_pre"):
+            labels.add("logger-used-before-first-call")
     nt = False
     calls = [(start, total, eps if ad.has_eps else None)]
     any_counter_wrong = False
-    for ci in range(2 if cont else 1):
+    for ci in range(1 + len(conts)):
         s_i, t_i, e_i = calls[ci]
         lo, dlo, vlo = len(log.events), len(tracker.at_step), len(log.violations)
         first_episode = env.episode + 1
@@ -320,16 +382,24 @@ def run_history(case):
         mid, stop = check_call(name, view, script, first_episode, s_i, t_i, e_i, ret, ad.has_counter,
                                warm, tracker.at_step[dlo:], tracker.now(), len(log.violations) - vlo,
                                labels, batch_size=case["cfg"]["batch_size"])
-        nt = nt or mid or stop == "episode_limit" or ci == 1
-        if ci == 0 and cont:
-            labels.add("continuation")
+        nt = nt or mid or stop == "episode_limit" or ci >= 1
+        if ci >= 1:
+            labels.add("third-call" if ci == 2 else "continuation")
+            if ad.logger is not None:
+                labels.add("logger-reused-by-continuation")
+                if e_i is not None:
+                    labels.add(f"logger-reused:total_episodes={e_i}:stop:{stop}")
+        if ci < len(conts):
             nxt = int(ret) if ad.has_counter else s_i + view["executed"]
             if nxt != s_i + view["executed"]:
                 any_counter_wrong = True
-            calls.append((nxt, max(total, nxt) + cont["extra"], cont["eps"] if ad.has_eps else None))
-    if cont and not any_counter_wrong:
+            c = conts[ci]
+            calls.append((nxt, _continuation_total(script, env.episode + 1, nxt, t_i if ci else total, c),
+                          c["eps"] if ad.has_eps else None))
+    if conts and not any_counter_wrong:
         labels.add("continuation-from-exact-counter")
-    fp = [name, script, start, rem, eps, cont, case["cfg"]["learning_starts"], case["cfg"]["batch_size"]]
+    fp = [name, script, start, rem, eps, conts, case["cfg"]["learning_starts"], case["cfg"]["batch_size"],
+          case.get("logger"), case.get("logger_pre", 0)]
     return Outcome(labels=sorted(labels), nontrivial=nt, fp=fp)
 
 
@@ -338,7 +408,7 @@ def _history_sub(routine, quick, thorough, cost, shards=2):
                     thorough=thorough, shards=shards, shards_thorough=8, shrink=False,
                     suppress_too_slow=True, simplify=simplify_history, cost=cost,
                     rule="budget ends mid-episode, or the episode limit stops the call, or a "
-                         "continuation call starts from the returned counter")
+                         "continuation call (with or without a reused logger) starts from the returned counter")
 
 
 # =========================================================================
@@ -1012,7 +1082,8 @@ SUBCHECKS += [
 # =========================================================================
 
 UTS_BACKBONES = ["train_td3", "train_sac", "train_nature_dqn", "train_ddqn"] + ([] if QUICK else ["train_td7", "train_mrq"])
-MT_BACKBONES = ["train_ddpg", "train_td3", "train_sac"]
+# (the DQN variants are the backbones of examples/amt_discrete_example.py and smt_discrete_example.py)
+MT_BACKBONES = ["train_ddpg", "train_td3", "train_sac", "train_ddqn", "train_nature_dqn"]
 AMT_SELECTORS = ["Round Robin", "1-step Progress", "Monotonic Progress", "Best Reward", "Diversity", "rr-instance"]
 
 
@@ -1098,6 +1169,11 @@ def sched_cases(draw, sched, real):
     if sched == "amt":
         case.update({"selector": draw(st.sampled_from(AMT_SELECTORS)), "r_max": draw(st.sampled_from([1.0, 10.0])),
                      "ducb_gamma": draw(st.sampled_from([0.95, 1.0, 0.5])), "xi": draw(st.sampled_from([0.002, 0.5]))})
+    if real:
+        # the schedulers hand their logger to every backbone call: one logger object sees the whole run
+        case["logger"] = draw(st.sampled_from(["memory", None, "snapshot", None, "memory"]))
+        if case["logger"]:
+            case["logger_pre"] = draw(st.sampled_from([0, 2, 0, 1]))
     return case
 
 
@@ -1105,6 +1181,8 @@ def simplify_sched(case):
     import copy
 
     c = case
+    if c.get("logger"):
+        d = copy.deepcopy(c); d["logger"] = None; yield d
     if c["budget"] > 1:
         for nb in (c["budget"] - 1, c["budget"] // 2):
             d = copy.deepcopy(c)
@@ -1162,6 +1240,7 @@ def run_sched(case):
     else:
         inner = R.StubBackbone()
     bb = RecordingBackbone(inner, log)
+    logger = R.make_logger(case.get("logger"), case.get("logger_pre", 0))
     mtrb = MultiTaskReplayBuffer(ReplayBuffer(200, discrete_actions=discrete_actions), n)
     capped = False
     zero_crash = None
@@ -1178,7 +1257,8 @@ def run_sched(case):
                     from functools import partial
                     st_fn = partial(bb, replay_buffer=ad.rb)
                 train_uts(ts, st_fn, total_timesteps=budget, episodes_per_task=case["interval"],
-                          seed=case["seed"], exploring_starts=case["learning_starts"], progress_bar=False)
+                          seed=case["seed"], exploring_starts=case["learning_starts"], progress_bar=False,
+                          logger=logger)
             elif sched == "smt":
                 from rl_blox.algorithm.smt import train_smt
 
@@ -1186,7 +1266,8 @@ def run_sched(case):
                     ts, bb, mtrb, b1=case["b1"], b2=case["b2"], solved_threshold=case["solved"],
                     unsolvable_threshold=case["unsolvable"], scheduling_interval=case["interval"],
                     kappa=case["kappa"], K=case["K"], n_average=case["n_average"],
-                    learning_starts=case["learning_starts"], seed=case["seed"], progress_bar=False)
+                    learning_starts=case["learning_starts"], seed=case["seed"], progress_bar=False,
+                    logger=logger)
             else:
                 from rl_blox.algorithm.active_mt import TASK_SELECTORS, train_active_mt
                 from rl_blox.blox.multitask import RoundRobinSelector
@@ -1203,7 +1284,8 @@ def run_sched(case):
                     ts, bb, mtrb, r_max=case["r_max"], ducb_gamma=case["ducb_gamma"], xi=case["xi"],
                     task_selector=selector if case["seed"] % 2 or case["selector"] == "rr-instance" else case["selector"],
                     total_timesteps=budget, scheduling_interval=case["interval"],
-                    learning_starts=case["learning_starts"], seed=case["seed"], progress_bar=False)
+                    learning_starts=case["learning_starts"], seed=case["seed"], progress_bar=False,
+                    logger=logger)
         except R.StepCapExceeded:
             capped = True
         except UnboundLocalError as e:
@@ -1221,6 +1303,10 @@ def run_sched(case):
     steps = log.steps()
     executed = len(steps)
     labels = {case["taskset"], f"tasks={min(n, 3)}{'+' if n > 3 else ''}"}
+    if real:
+        labels.add("backbone:" + who)
+    if logger is not None:
+        labels.add("logger:" + case["logger"])
     if zero_crash:
         report(f"{pfx.split('.')[0]}.{zero_what}.raises_UnboundLocalError",
                f"budget={budget} b1={case.get('b1')}: {zero_crash}")
@@ -1263,6 +1349,22 @@ def run_sched(case):
             check(c["learning_starts"] == case["learning_starts"], f"{pfx}.learning_starts_passed",
                   f"call {i}: {c['learning_starts']}")
             run += c["executed"]
+    if real:
+        # every backbone call, from the env log: it stops exactly when the episodes it was asked for have
+        # finished or the step budget it was given is used up -- not earlier, not later
+        for i, c in enumerate(bb.calls):
+            E, T, g = c["total_episodes"], c["total_timesteps"], c["global_step"]
+            if E is None or T is None or g is None or "executed" not in c or (capped and i == len(bb.calls) - 1):
+                continue
+            if logger is not None and i >= 1:
+                labels.add("logger-reused-by-backbone-calls")
+            check(c["ends"] >= E or c["executed"] >= T - g, f"{pfx}.backbone_call.stops_early",
+                  lambda: f"backbone call {i} (global_step={g}, total_timesteps={T}, total_episodes={E}, logger="
+                          f"{case.get('logger')}) stopped after {c['executed']} steps / {c['ends']} finished episodes: "
+                          f"neither the episode limit nor the budget was reached; calls so far "
+                          f"{[(x.get('executed'), x.get('ends')) for x in bb.calls[:i + 1]]}")
+            check(E <= 0 or c["ends"] <= E, f"{pfx}.backbone_call.episodes_after_limit",
+                  lambda: f"backbone call {i} finished {c['ends']} episodes with total_episodes={E}")
     if sched in ("uts", "amt"):
         # both schedulers run until the budget is used up (real backbones included)
         check(executed >= budget, f"{pfx}.budget.underrun", f"executed {executed} < budget {budget}")
@@ -1293,7 +1395,8 @@ def run_sched(case):
             labels.add("early-stop")
     labels.add(f"calls={min(len(bb.calls), 3)}{'+' if len(bb.calls) > 3 else ''}")
     nt = len(bb.calls) >= 2 and (mid or trained >= 2)
-    fp = [sched, who, case["taskset"], n, case["scripts"], budget, case["interval"], case.get("b1"), case.get("selector")]
+    fp = [sched, who, case["taskset"], n, case["scripts"], budget, case["interval"], case.get("b1"), case.get("selector"),
+          case.get("logger")]
     return Outcome(labels=sorted(labels), nontrivial=nt, fp=fp)
 
 
